@@ -19,7 +19,7 @@ import (
 // ---------------------------------------------------------------------------
 
 type Renderer struct {
-	cuts int
+	cuts  int
 	fn    *ssa.Function
 	memo  map[ssa.Value]string
 	busy  map[ssa.Value]bool
